@@ -7,6 +7,8 @@ Tie (correspondence, same inputs through gnpy and through the Gallina model `Ver
       slot, malformed;
   (c) `build_oms_list` on random designed networks whose OMS differ in amplifier bands (C, L, C+L, narrower
       models, shifted band edges) vs the model run on the graph extracted from networkx;
+  (c') `build_oms_list` on raw graphs of stand-in elements (no design): chain-structured ones (judged) and malformed
+      ones (edges back to the previous element, dead ends, shared elements, transceivers on lines, no amplifier);
   (d) frequency_to_n / nvalue_to_frequency / mvalue_to_slots / slots_to_m / find_common_range unit cases.
 Oracle: the property evaluated directly on what the implementation built (partition, ROADM-to-ROADM runs along
 graph edges, reverse pairing, one common contiguous extent, FREE exactly inside the OMS's common band(s),
@@ -1009,7 +1011,8 @@ def run(ctx):
                 'common-band lists (grid-aligned judged; off-grid, closer-than-one-slot and malformed streams) through '
                 'find_elements_common_range + create_oms_bitmap + Bitmap; (c) random 2-5 ROADM meshes whose directed lines '
                 'are C-only, L-only, C+L, narrower or auto-designed, four amplifier-library variants, designed by gnpy, '
-                'through build_oms_list; (d) unit cases of the slot/frequency conversions and find_common_range. '
+                'through build_oms_list; (c2) raw graphs of stand-in elements, chain-structured and malformed, through '
+                'build_oms_list; (d) unit cases of the slot/frequency conversions and find_common_range. '
                 'non-trivial: align cases with >= 2 different extents, band lists with >= 2 bands or a band ending '
                 'below f_max, networks with >= 2 distinct usable-slot layouts; distinct by content hash')
     cases = []
@@ -1132,6 +1135,11 @@ def run(ctx):
         'slot boundary without being on it are skipped and counted (skipped_tie)',
         'network stream: the graph handed to the model is read from networkx after gnpy designed the network '
         '(node order, edge order, element kinds, params.bands of every amplifier)',
+        'raw-graph stream: elements are Roadm/Transceiver/Edfa/Multiband_amplifier/Fused instances created without '
+        '__init__ (uid, params.bands only); a walk of build_oms_list that exceeds the number of (node, node) states is '
+        'stopped by a guard on OMS.add_element and compared with the model\'s out-of-fuel result',
+        'find_common_range is modelled on (f_min, f_max) only; remove_duplicates compares these two keys (spacing and '
+        'other keys of a band never reach the spectrum map)',
         'off-grid band edges (stream offgrid, library variant 3) are compared model-vs-implementation but the '
         'FREE-exactly-inside clause is only counted there (int() truncates toward zero on both sides of 193.1 THz)',
     ]
